@@ -8,6 +8,8 @@ THEOREMS = [
     "refine_seq_new",
     "mutate_p_refines",
     "cursor_correct",
+    "install_refines",
+    "install_empty",
     "getters_eq_scan",
     "getters_after_history",
     "interface_algorithms_agree",
